@@ -159,6 +159,7 @@ type codec struct {
 	goodSigs  map[string][]byte // member/height -> the last valid signature made for it
 	goodOver  map[string]string // ... and the bytes it covers
 	replaySigs bool             // an invalid signature is a replayed genuine one when there is one
+	borrowShareOf *uint64 // with replaySigs: an invalid share is this member's genuine one
 }
 
 func newCodec(kr *keyring) *codec {
@@ -427,6 +428,9 @@ func (c *codec) encode(m *aMsg) *interfaces.ConsensusRawMessage {
 		var share []byte
 		if m.ShareOk {
 			share = c.kr.signSeed(idBytes(m.Snd.Id), primitives.BlockHeight(m.Ref.Height), c.seedBytesFor(m.Ref.Height))
+		} else if c.replaySigs && c.borrowShareOf != nil && *c.borrowShareOf != m.Snd.Id {
+			// another member's genuine share for this height
+			share = c.kr.signSeed(idBytes(*c.borrowShareOf), primitives.BlockHeight(m.Ref.Height), c.seedBytesFor(m.Ref.Height))
 		} else {
 			share = []byte("junk-share")
 		}
